@@ -9,11 +9,11 @@ import h1gen
 import simnet
 
 ID = "C02"
-MODULE = "HttpcoreModel.Props.C02"
+MODULE = "HttpcoreModel.Props.C02Chunked"
 THEOREMS = [f"Httpcore.C02.{n}" for n in (
     "h1_segmentation", "h1_segmentation_open", "h1_interim_skipped", "h1_body_content_length", "h1_truncation_cl",
     "h1_truncation_head", "h1_body_until_close", "headGives_of_extract", "extract_head_status",
-    "h2_body_exact", "h2_truncation", "recv_is_strict")]
+    "h2_body_exact", "h2_truncation", "recv_is_strict", "h1_body_chunked")]
 TRUSTED = [
     "Lean 4.33 kernel; axioms per theorem under coverage.theorems",
     "hand-written byte-level model of h11 0.14's response reader and of httpcore's receive loops (H1Read/H1Obs), tied by differential execution on structured, cut and malformed streams (this run)",
